@@ -259,14 +259,27 @@ fn process(pr: &Proj, idx: usize, outdir: &str, opts: &Opts, rng: &mut Rng) -> O
     }
     // ---- entities to query ----
     let mut qents: BTreeMap<usize, EntRef<'_>> = BTreeMap::new();
-    for (_, (_, e)) in hits.iter() {
-        let d = decl_of(e);
-        qents.insert(d.id().to_raw(), d);
+    let cap = if is_libs { if opts.thorough { 1200 } else { 120 } } else if opts.replay { usize::MAX } else { 400 };
+    {
+        // the declarations of everything a cursor resolved to (clause 1 needs them all; sampled for the libraries)
+        let mut hs: Vec<&(SrcPos, EntRef<'_>)> = hits.values().collect();
+        if is_libs && hs.len() > cap {
+            for i in 0..cap {
+                let j = i + rng.below(hs.len() - i);
+                hs.swap(i, j);
+            }
+            hs.truncate(cap);
+            let keep: HashSet<(u32, Span, usize)> = hs.iter().map(|(pos, e)| (files.id(pos.source.file_name()), span_of(pos), e.id().to_raw())).collect();
+            hits.retain(|k, _| keep.contains(k));
+        }
+        for (_, (_, e)) in hits.iter() {
+            let d = decl_of(e);
+            qents.insert(d.id().to_raw(), d);
+        }
     }
     {
         // every entity the recorded events mention (declared or referenced), and its declaration
         let mut cand: Vec<usize> = fo.evs.iter().filter_map(|e| e.ent).collect::<BTreeSet<_>>().into_iter().collect();
-        let cap = if is_libs { if opts.thorough { 1500 } else { 150 } } else if opts.replay { usize::MAX } else { 400 };
         if cand.len() > cap {
             // deterministic sample
             for i in 0..cap {
